@@ -46,8 +46,8 @@ Ltac break_match :=
 Ltac rdx :=
   cbv beta iota zeta delta
     [step handle enter cl wr wr_ok listens uninit close_bump_idle decode_error_exit open_received
-     set_st set_att set_conn set_neg set_retry set_upd bump hold_expired
-     s_st s_att s_conn s_neg s_retry s_upd sname_eqb andb negb fst snd app
+     set_st set_att set_conn set_neg set_retry set_upd set_imp bump hold_expired
+     s_st s_att s_conn s_neg s_retry s_upd s_imp sname_eqb andb negb fst snd app
      inv abs in_session is_down a_st a_att a_open].
 
 Ltac solve_one :=
@@ -72,7 +72,7 @@ Lemma step_refines : forall c s e,
   inv s ->
   inv (fst (step c s e)) /\ spec_step (abs s) (snd (step c s e)) (abs (fst (step c s e))).
 Proof.
-  intros c [st att cn ng rt up] e [Hatt Hconn]. cbn in Hatt, Hconn.
+  intros c [st att cn ng rt up im] e [Hatt Hconn]. cbn in Hatt, Hconn.
   destruct st.
   - (* Idle *)
     assert (att = false) by (destruct att; [destruct Hatt as [H _]; specialize (H eq_refl); discriminate | reflexivity]).
@@ -160,7 +160,7 @@ Proof.
   (* the connection of a session state is never nil, and a closed one stays a closed one *)
   pose proof (final_inv c es) as [_ Hconn]. destruct (Hconn Hin) as [b Hb].
   clear Hsp Hc. revert Ho Hdown. generalize (final c es) Hin Hb. clear.
-  intros [st att cn ng rt up] Hin Hb. cbn in Hin, Hb. subst cn.
+  intros [st att cn ng rt up im] Hin Hb. cbn in Hin, Hb. subst cn.
   destruct st; try discriminate; destruct e; crunch.
   all: try (exfalso; eapply frame_of_no_panic; eassumption).
   all: rdx; intros; try reflexivity; try discriminate.
